@@ -14,7 +14,7 @@ use alloc::{str::from_utf8, vec};
 #[cfg(feature = "zlib")]
 use miniz_oxide::inflate::decompress_to_vec_zlib_with_limit;
 
-use rustzx_z80::Z80Bus;
+use rustzx_z80::{Z80Bus, Z80};
 
 const ZXST_MID_128K: u32 = 2;
 
@@ -351,6 +351,10 @@ where
     if (machine_id == ZXST_MID_128K) != machine_is_128k {
         return Err(SnapshotLoadError::MachineNotSupported.into());
     }
+
+    // Snapshot describes CPU at instruction boundary: drop pending prefix and other
+    // latches of the program which was running before
+    emulator.cpu = Z80::default();
 
     // ZXST Block Header
     asset.seek(SeekFrom::Start(cursor_pos))?;
